@@ -119,7 +119,7 @@ ParamSpec paramSpecOf(const Op &op) {
     if (nd == 0) { count = static_cast<size_t>(delta < 0 ? -delta : delta); if (count > 300) count = 300; s.consistent = true; }
     else if (delta == -999999) { count = 0; s.consistent = (prod == 0); }      // empty data with an explicit shape
     else {
-        const size_t cap = s.type == 2 ? 600 : 3000;
+        const size_t cap = s.type == 2 ? 600 : 30000;      // up to 60 KB of int data: records beyond 32767 bytes are legal
         size_t capped = prod > cap ? cap : prod;     // never build huge arrays; a capped array is inconsistent on purpose
         long long c = static_cast<long long>(capped) + delta; if (c < 0) c = 0;
         count = static_cast<size_t>(c);
@@ -201,6 +201,12 @@ static ezc3d::DataNS::Frame buildFrame(const Shape &s, long long dev, uint64_t v
         an.subframe(sf);
     }
     if (dev == 12 && nSub > 0 && nC > 0) note = "unnamed-channels";
+    if (dev == 13 && nSub >= 2 && nC >= 1) {      // the last sub-frame holds one channel fewer
+        ezc3d::DataNS::AnalogsNS::SubFrame shortSf;
+        for (size_t c = 0; c + 1 < nC; ++c) shortSf.channel(an.subframe_nonConst(nSub - 1).channel(c));
+        an.subframe(shortSf, nSub - 1);
+        note = "ragged-sub-channels";
+    }
     ezc3d::DataNS::Frame f;
     f.add(pts, an);
     // make sure the caller's frame really carries the residuals (set through the documented non-const accessor)
@@ -287,6 +293,18 @@ Outcome Interp::exec(const Op &op) {
             p.set(std::vector<float>() = {nr});
             obj->parameter("POINT", p);
         }
+        else if (k == "pratex") {
+            // a point rate very close to a table rate (table + delta/100 Hz): exercises the 1e-4 Hz agreement of header and POINT:RATE
+            Shape s = shapeOf(*obj);
+            if (s.arate != 0.f) { out.skipped = true; out.note = "analog rate set: a fractional point rate would make the ratio inconsistent, not called"; return out; }
+            long long d = op.arg(1) % 10;
+            const float nr = rateOf(op.arg(0)) + static_cast<float>(d) * 0.01f;
+            if (!(nr > 0.f)) { out.skipped = true; return out; }
+            out.mutating = true;
+            ezc3d::ParametersNS::GroupNS::Parameter p("RATE");
+            p.set(std::vector<float>() = {nr});
+            obj->parameter("POINT", p);
+        }
         else if (k == "arate") {
             out.mutating = true;
             float pr = shapeOf(*obj).prate;
@@ -347,6 +365,13 @@ Outcome Interp::exec(const Op &op) {
                 ezc3d::ParametersNS::GroupNS::Parameter pr("RATE"); pr.set(std::vector<float>() = {1.f}); obj->parameter("POINT", pr);
                 ezc3d::ParametersNS::GroupNS::Parameter ar("RATE"); ar.set(std::vector<float>() = {static_cast<float>(v)}); obj->parameter("ANALOG", ar);
                 out.note = "subframes=" + std::to_string(v); break; }
+            case 13: {  // table of v strings of 255 characters (both dimensions at their limit when v == 255; record > 32767 bytes from v == 129)
+                ezc3d::ParametersNS::GroupNS::Parameter p("TABLE"); std::vector<std::string> t(static_cast<size_t>(v), std::string(255, 'q'));
+                for (size_t i2 = 0; i2 < t.size(); ++i2) t[i2][i2 % 255] = static_cast<char>('A' + i2 % 26);
+                p.set(t); obj->parameter("LIMITS", p); out.note = "table255x" + std::to_string(v); break; }
+            case 14: {  // int matrix 255 x v
+                ezc3d::ParametersNS::GroupNS::Parameter p("MATRIX"); std::vector<int> m(static_cast<size_t>(255 * v)); for (size_t i2 = 0; i2 < m.size(); ++i2) m[i2] = static_cast<int>(i2 % 30000);
+                p.set(m, {255, static_cast<size_t>(v)}); obj->parameter("LIMITS", p); out.note = "matrix255x" + std::to_string(v); break; }
             case 11: obj->parameter("LIMITS2", mk("G", "")); { /* group description cannot be set through c3d: covered via Group in a loaded file */ } out.note = "noop"; break;
             default: out.skipped = true; out.mutating = false; break;
             }
@@ -443,7 +468,11 @@ Outcome Interp::exec(const Op &op) {
                     if (dev == 7 && nF >= 2 && f == nF - 1 && ncols >= 1) { cols = ncols - 1; out.note = "ragged"; }
                     if (isP) {
                         ezc3d::DataNS::Points3dNS::Points pts;
-                        for (size_t j = 0; j < cols; ++j) { ezc3d::DataNS::Points3dNS::Point pt; pt.name(names[j]); fillPoint(pt, r); pts.point(pt); }
+                        for (size_t j = 0; j < cols; ++j) {
+                            ezc3d::DataNS::Points3dNS::Point pt; pt.name(names[j]);
+                            if (dev == 11 && nF >= 2 && f == nF - 1 && j == 0) { pt.name(names[j] + "_other"); out.note = "altname"; }   // a later frame spells the new name differently
+                            fillPoint(pt, r); pts.point(pt);
+                        }
                         fr.add(pts);
                         for (size_t j = 0; j < fr.points().nbPoints(); ++j) fr.points_nonConst().point_nonConst(j).residual(bitsToFloat(genFloatBits(r)));
                     } else {
@@ -463,6 +492,7 @@ Outcome Interp::exec(const Op &op) {
             lastCol = col;
             out.mutating = true;
             if (isP) obj->point(lastCol); else obj->analog(lastCol);
+            if (out.note == "altname" || out.note == "ragged") out.undocumented = true;    // accepted although the frames disagree: undocumented, the history ends
         }
         else if (k == "colmut") {
             // mutate the caller's column vector after it was handed over
